@@ -322,6 +322,28 @@ fn literal_strings(thorough: bool, rng: &mut Rng, emit: &mut dyn FnMut(String))
 // ------------------------------------------------------------------ (iii) position stream
 const MB: [&str; 6] = ["é", "ß", "€", "語", "😀", "𝄞"];
 
+/// a multi-byte character: the fixed ones, the characters at the boundaries of every UTF-8 length class (continuation
+/// bytes 0x80 and 0xBF in every place), or any scalar value of a random length class
+fn mb(rng: &mut Rng) -> Vec<u8>
+{
+	const EDGE: [u32; 16] = [0x80, 0xBF, 0xFF, 0x7FF, 0x800, 0xFBF, 0xD7FF, 0xE000, 0xFFFD, 0xFFFF, 0x10000, 0x1003F, 0x3FFFF, 0x40000, 0xBFFFF, 0x10FFFF];
+	match rng.below(4)
+	{
+		0 => rng.pick(&MB).as_bytes().to_vec(),
+		1 => utf8(*rng.pick(&EDGE)),
+		_ =>
+		{
+			let c = match rng.below(3)
+			{
+				0 => 0x80 + rng.below(0x800 - 0x80),
+				1 => { let x = 0x800 + rng.below(0x10000 - 0x800 - 0x800); if x >= 0xD800 { x + 0x800 } else { x } },
+				_ => 0x10000 + rng.below(0x110000 - 0x10000),
+			} as u32;
+			utf8(c)
+		},
+	}
+}
+
 fn gen_token(rng: &mut Rng) -> (Vec<u8>, u8)
 {
 	// class: 0 = closed punctuation (may touch its neighbours), 1 = other
@@ -350,7 +372,7 @@ fn gen_token(rng: &mut Rng) -> (Vec<u8>, u8)
 				match rng.below(6)
 				{
 					0..=2 => s.push(*rng.pick(b"abc XYZ019;,/*'\t")),
-					3 => s.extend_from_slice(rng.pick(&MB).as_bytes()),
+					3 => { let m = mb(rng); s.extend_from_slice(&m) },
 					4 => s.extend_from_slice(*rng.pick(&[&b"\\n"[..], b"\\t", b"\\\"", b"\\\\", b"\\0", b"\\'", b"\\r"])),
 					_ => s.extend_from_slice(*rng.pick(&[&b"\\u{41}"[..], b"\\u{e9}", b"\\u{20AC}", b"\\u{1F600}", b"\\u{0}"])),
 				}
@@ -364,7 +386,7 @@ fn gen_token(rng: &mut Rng) -> (Vec<u8>, u8)
 			match rng.below(4)
 			{
 				0 => s.push(*rng.pick(b"aZ0 ;\"/*\t~")),
-				1 => s.extend_from_slice(rng.pick(&MB).as_bytes()),
+				1 => { let m = mb(rng); s.extend_from_slice(&m) },
 				2 => s.extend_from_slice(*rng.pick(&[&b"\\n"[..], b"\\t", b"\\r", b"\\'", b"\\\"", b"\\\\"])),
 				_ => s.push(b'\''),
 			}
@@ -381,7 +403,7 @@ fn gen_comment_text(rng: &mut Rng, depth: u32, out: &mut Vec<u8>, line: bool)
 		match rng.below(8)
 		{
 			0..=2 => out.extend_from_slice(*rng.pick(&[&b"word"[..], b"x", b" ", b"  ", b"\t", b"0x10", b"\"", b"'", b";"])),
-			3 => out.extend_from_slice(rng.pick(&MB).as_bytes()),
+			3 => { let m = mb(rng); out.extend_from_slice(&m) },
 			4 => if line { out.extend_from_slice(*rng.pick(&[&b"/*"[..], b"*/", b"//", b"/", b"*"])) } else { out.extend_from_slice(*rng.pick(&[&b"\n"[..], b"\r\n", b"\n\n"])) },
 			5 => if !line && depth < 4 { out.extend_from_slice(b"/*"); gen_comment_text(rng, depth + 1, out, false); out.extend_from_slice(b"*/"); },
 			6 => if !line { out.extend_from_slice(*rng.pick(&[&b" - "[..], b"\n"])) },
